@@ -239,7 +239,7 @@ class Run:
         _WORK = work
         ctx = mp.get_context("fork")
         total = 0
-        par_budget = 3 * self.explore_budget_s          # here the workers also discharge their obligations
+        par_budget = max(270, self.explore_budget_s)    # here the workers also discharge their obligations
         t_end = time.time() + par_budget
         while frontier:
             if time.time() > t_end:
